@@ -61,12 +61,12 @@ var urlFrags = []string{
 	":", "&#58;", "&colon;", "&Tab;", "\t", "\n", "\r", " ", "/", "//", "\\", "%3a", "%0a", "\x01", "\x00",
 	"@", "?", "#", ".", "a", "é", " ", " ", "%", "[", "]", "&#0;", "&#1;", "&#x1f;", "\x7f", "\x0b", "\x0c",
 	"e.x", "&amp;", "=", "&",
-	"%2F", "%5c", "<", // an encoded slash / backslash (a path that decodes to "//..."), a character the normal form must escape
+	"%2F", "%2f", "%5c", "<", // an encoded slash / backslash (a path that decodes to "//..."), a character the normal form must escape
 }
 
 // urlPrefixes / urlTailFrags: well-formed beginnings and the fragments that matter at the end of a URL.
 var urlPrefixes = []string{"http://e.x/", "http://e.x", "/p", "mailto:a@e.x", "//e.x/p"}
-var urlTailFrags = []string{"?", "#", "/", ".", ":", "@", "a", "=", "&amp;", "%", "%3a", "%0a", "%20", " ", "\u00a0", "\u2003", "\t", "\n", "\\", "é", "[", "]", "&#0;", "\x7f", "+", "%2F", "<"}
+var urlTailFrags = []string{"?", "#", "/", ".", ":", "@", "a", "=", "&amp;", "%", "%3a", "%0a", "%20", " ", "\u00a0", "\u2003", "\t", "\n", "\\", "é", "[", "]", "&#0;", "\x7f", "+", "%2F", "%2f", "<"}
 
 // dataURIFrags: the data: URI fragment alphabet (C03, C14).
 var dataURIFrags = []string{"data:", "DATA:", "image/png", "image/svg+xml", "image/gif", "text/html", ";base64,", ";base64", ",", "iVBORw0KGgo=", "AAAA", "AA", " ", "\n", "\r", "\t", "#", "?", "x", "<script>", ";charset=utf-8", "%20", "&#10;", "="}
